@@ -6,6 +6,7 @@ mod c17;
 mod lang;
 mod c16;
 mod c18;
+mod c10;
 
 fn main() {
     common::install_panic_hook();
@@ -20,6 +21,7 @@ fn main() {
         "c17" => c17::main(&a),
         "c16" => c16::main(&a),
         "c18" => c18::main(&a),
+        "c10" => c10::main(&a),
         "features" => {
             println!("checks={} explanations={}", cfg!(feature = "checks"), cfg!(feature = "explanations"));
         }
